@@ -980,14 +980,16 @@ def registries_for_description(wd, tier, seed, res, mc_module, fams, extra_const
 def check_c13(tier, seed):
     res = Result("C13", tier, seed)
     wd = workdir("C13")
-    regs = registries_for_description(wd, tier, seed, res, "MC_C13.tla", ["G1c", "G8", "G1a_1", "G1a_2", "G2p_2"])
+    regs = registries_for_description(wd, tier, seed, res, "MC_C13.tla", ["G1c", "G8", "G1a_1", "G1a_2", "G2p_2", "G13"])
     n_all = len(regs)
     rnd = random.Random(seed)
     if tier == "quick":
-        keep = [r for r in regs if not r["fam"].startswith("G1a") and r["fam"] != "G2p_2"]
+        keep = [r for r in regs if not r["fam"].startswith("G1a") and r["fam"] not in ("G2p_2", "G13")]
         rest = [r for r in regs if r["fam"].startswith("G1a") or r["fam"] == "G2p_2"]
+        g13 = [r for r in regs if r["fam"] == "G13"]
         rnd.shuffle(rest)
-        regs = keep + rest[:900]
+        rnd.shuffle(g13)
+        regs = keep + rest[:900] + g13[:500]
     recs = [{"case": i, "fam": r["fam"], "reg": r["reg"], "ids": []} for i, r in enumerate(regs)]
     write_ndjson(os.path.join(wd, "cases.ndjson"), recs)
     harness_run("desc", os.path.join(wd, "cases.ndjson"), os.path.join(wd, "obs.ndjson"), jobs=12, stall=30)
@@ -1025,14 +1027,16 @@ def check_c13(tier, seed):
 def example_check(prop, mode, tv_module, key, tier, seed, rule, settings=None):
     res = Result(prop, tier, seed)
     wd = workdir(prop)
-    regs = registries_for_description(wd, tier, seed, res, "MC_C12.tla", ["G1c", "G8", "G1a_1"])
+    regs = registries_for_description(wd, tier, seed, res, "MC_C12.tla", ["G1c", "G8", "G1a_1", "G13"])
     n_all = len(regs)
     rnd = random.Random(seed)
     if tier == "quick":
-        keep = [r for r in regs if not r["fam"].startswith("G1a")]
+        keep = [r for r in regs if not r["fam"].startswith("G1a") and r["fam"] != "G13"]
         rest = [r for r in regs if r["fam"].startswith("G1a")]
+        g13 = [r for r in regs if r["fam"] == "G13"]
         rnd.shuffle(rest)
-        regs = keep + rest[:500]
+        rnd.shuffle(g13)
+        regs = keep + rest[:500] + g13[:300]
         rnd.shuffle(regs)      # alternate settings are assigned by position
     seeds = list(range(0, 4)) if tier == "quick" else list(range(0, 16))
     recs = [{"case": i, "fam": r["fam"], "reg": r["reg"], "ids": [], "seeds": seeds} for i, r in enumerate(regs)]
